@@ -27,10 +27,12 @@ def _parse_printed(stdout: str) -> list:
     return out
 
 
-def run_tlc(ctx: Ctx, spec: str, cfg: str, *, workers: int | str = 16, env: dict | None = None,
+def run_tlc(ctx: Ctx, spec: str, cfg: str, *, workers: int | str | None = None, env: dict | None = None,
             simulate: str | None = None, depth: int | None = None, timeout: int = 3000,
             coverage: bool = False, heap: str = "8g", expect_ok: bool = True, tag: str = "") -> dict:
     """Run TLC on specs/<spec>.tla with specs/<cfg>.cfg.  Returns stdout, counts and printed JSON values."""
+    if workers is None:
+        workers = os.environ.get("VERIF_TLC_WORKERS", "16")
     meta = ctx.path(f"meta-{len(ctx.tlc_runs)}-{os.getpid()}")
     cmd = ["java", "-XX:+UseParallelGC", f"-Xmx{heap}", "-cp", JAVA_CP, "tlc2.TLC",
            "-workers", str(workers), "-metadir", meta, "-noGenerateSpecTE", "-config", f"{cfg}.cfg"]
@@ -94,7 +96,7 @@ def generate(ctx: Ctx, spec: str, cfg: str, **kw) -> list:
     return res["printed"]
 
 
-def validate_traces(ctx: Ctx, spec: str, cfg: str, traces: list[dict], *, chunk: int = 4000, workers: int = 16,
+def validate_traces(ctx: Ctx, spec: str, cfg: str, traces: list[dict], *, chunk: int = 4000, workers: int | None = None,
                     timeout: int = 3000, env: dict | None = None) -> dict:
     """Batch trace validation.  Every trace is a JSON object with a unique string `id`.  The trace spec must
     print exactly one record {"tag":"VERDICT","id":..,"fails":[..],"drift":[..]} per trace.
